@@ -296,6 +296,16 @@ func run(t *rapid.T, test string, sc scenario) {
 		}
 	}
 	if len(keys) > 0 {
+		if sc.Disturb%2 == 1 {
+			// the keys were something else first: ResetContextKeys forgets them (their value is in the context)
+			lg.SetContextKeys("forgotten-context-key")
+			if r, ok := lg.(interface{ ResetContextKeys(keys ...any) *slog.Entry }); ok {
+				r.ResetContextKeys()
+			} else {
+				t.Fatalf("harness: the logger has no ResetContextKeys")
+			}
+			ctx = context.WithValue(ctx, "forgotten-context-key", "must not be printed") //nolint:staticcheck // string key on purpose
+		}
 		lg.SetContextKeys(keys...)
 	}
 	if sc.AncestorCtxKeys {
